@@ -89,6 +89,17 @@ class Ctx:
             json.dump(doc, f, default=str)
 
 
+def _seed_global_rng(case):
+    """every case starts from a global torch RNG state derived from the case itself, so that a replay of the case reproduces the
+    random Lanczos start vectors / probes the library draws"""
+    import hashlib
+
+    import torch
+
+    h = hashlib.sha256(json.dumps(case, sort_keys=True, default=str).encode()).digest()
+    torch.manual_seed(int.from_bytes(h[:7], "big"))
+
+
 def run_shard(prop, tier, seed, shard, nshards, out):
     from . import env
 
@@ -109,6 +120,7 @@ def run_shard(prop, tier, seed, shard, nshards, out):
             done = "time"
             break
         ctx.case = case
+        _seed_global_rng(case)
         try:
             mod.run_case(case, ctx)
         except Exception as e:  # harness error: never a verdict about the library
@@ -136,6 +148,7 @@ def replay(prop, path):
     if setup:
         setup(ctx)
     ctx.case = doc["case"]
+    _seed_global_rng(doc["case"])
     mod.run_case(doc["case"], ctx)
     for fp, rec in ctx.fail_keep.items():
         r = dict(rec)
